@@ -276,6 +276,7 @@ void VerletCreator::createDistances()
 	     
 	     if (max_disp < tempDisp) {
 	       // 	   MSG_DEBUG("VerletCreator::createDistances", "max_disp < tempDisp, max_disp_old=" << max_disp << ", tempDisp="<< tempDisp);
+	       max2 = max_disp;
 	       max_disp = tempDisp;
 	     }
 	     else if (max2 < tempDisp) {
